@@ -113,6 +113,16 @@ def stmt_rates(m, y, desc):
     chk(Rate.F_EI, "F_EI", fei)
     chk(Rate.E_KIN_MEAN, "E_KIN_MEAN", np.array([e_kin])); chk(Rate.E_KIN_FWHM, "E_KIN_FWHM", np.array([fwhm]))
     chk(Rate.V_RA, "V_RA", np.array([-phi.min()])); chk(Rate.V_AX, "V_AX", np.array([d.v_ax + d.v_ax_sc - phi.min()]))
+    # … where the barrier's space-charge correction is itself re-derived from the device definition: on-axis potential of the same beam
+    # at E + V_ax in the barrier tube (radius r_dt_bar when given, else the trap's), by the package's own e-beam solver on that tube's mesh
+    dk = (desc or {}).get("device")
+    if dk:
+        import ebisim.simulation._radial_dist as rd
+        from ebisim.simulation import Device
+        gb = d.rad_grid if "r_dt_bar" not in dk else Device.get(**dict({k_: v_ for k_, v_ in dk.items() if k_ != "r_dt_bar"}, r_dt=dk["r_dt_bar"])).rad_grid
+        pb = rd.boltzmann_radial_potential_linear_density_ebeam(np.ascontiguousarray(gb), d.current, d.r_e, d.e_kin + d.v_ax, 0, 1, 1)[0]
+        if abs(d.v_ax_sc - pb[0]) > 1e-8 * abs(pb[0]):
+            add("V_AX", f"axial trap depth uses a barrier space-charge correction of {d.v_ax_sc!r} V, the beam at E + V_ax in the barrier tube gives {pb[0]!r} V")
     if o.EI: chk(Rate.EI, "EI", eixs * n * je * fei)
     if o.RR: chk(Rate.RR, "RR", rrxs * n * je * fei)
     if o.DR: chk(Rate.DR, "DR", drxs * n * je * fei)
